@@ -1091,7 +1091,7 @@ def _main(tier: str, total: float, parts: list) -> int:
         herrs.append(f'canonical captured history did not run: {kind} {out}')
     for sub, fn, frac in parts:
         res = core.run_batch(PROP + ':' + sub, 'checks.c18', fn, tier=tier, budget_s=total * frac, max_runs=None, chunk=1,
-                             chunk_timeout=900.0)
+                             chunk_timeout=900.0, workers=6 if sub == 'captured' else None)
         st.merge(res['stats'].dump(), max_samples=6)
         violations += res['violations']
         herrs += res['harness_errors']
